@@ -156,7 +156,8 @@ func runC16(c *c16Case) ([]c16Step, string) {
 			_ = tc.CloseWrite()
 		}
 	}()
-	if c.Coalesce || strings.HasPrefix(c.Via, "listener") {
+	// (a real socket does not take a long stream before somebody reads: the long streams are read as they are written)
+	if c.Coalesce || (strings.HasPrefix(c.Via, "listener") && total < 256<<10) {
 		select {
 		case <-wrote:
 		case <-time.After(20 * time.Second):
@@ -346,13 +347,19 @@ func TestC16Sweep(t *testing.T) {
 			run(&c16Case{Limit: L, Sizes: []int{60, a}, Via: "listener-tls"})
 		}
 	}
-	if Thorough() {
-		def := int(lime.DefaultReadLimit)
-		for _, sz := range []int{def - 1, def, 2*def + 1} {
-			run(&c16Case{Limit: 0, Sizes: []int{1000, sz}, Coalesce: true})
+	// the default limit (nothing configured): the boundary, and long streams of frames within it - "no matter how much data
+	// preceded it" also holds when more than the limit has gone by on the connection
+	def := int(lime.DefaultReadLimit)
+	for _, sz := range []int{def - 1, def, 2*def + 1} {
+		run(&c16Case{Limit: 0, Sizes: []int{1000, sz}, Coalesce: true})
+		if Thorough() {
 			run(&c16Case{Limit: 0, Sizes: []int{sz}, ReadChunk: 65536})
 		}
 	}
+	run(&c16Case{Limit: 0, Sizes: []int{3 << 20, 3 << 20, 3 << 20, 1000, 3 << 20}})
+	run(&c16Case{Limit: 0, Sizes: []int{def / 2, -(def / 2), def / 2, def / 2, 60, def}, Coalesce: true, ReadChunk: 65536, Trace: true})
+	run(&c16Case{Limit: 0, Sizes: []int{5 << 20, 5 << 20, 200}, Via: "listener"})
+	run(&c16Case{Limit: 0, Sizes: []int{1 << 20, 1 << 20, 1 << 20, 1 << 20, 1 << 20, 1 << 20, 1 << 20, 1 << 20, 1 << 20, 100}, Via: "listener-tls"})
 	rec.Note("exhaustive", "true")
 }
 
